@@ -681,7 +681,11 @@ def err_program(rng, pid, horizon):
         nodes.append(P.node(kind, ins=[prev], k=rng.choice([1, 2]) if kind in ("delay", "echo") else rng.choice([0, 1, -3])))
         prev = len(nodes)
     first_in_chain = 2
-    nodes.append(P.node("throwneg", ins=[prev], cap=1))
+    if rng.random() < 0.3:
+        # a thrower that owns a scheduler: it throws from a timer-driven evaluation while its next wake-up may be pending
+        nodes.append(P.node("tdelay", ins=[prev], k=rng.randint(1, 2), cap=1))
+    else:
+        nodes.append(P.node("throwneg", ins=[prev], cap=1))
     thrower = len(nodes)
     prev = thrower
     for _ in range(rng.randint(0, 2)):
